@@ -30,6 +30,7 @@ CONSTANTS Tags, MaxDepth,        \* build expressions: ExprsUpTo(Tags, MaxDepth)
           TdLevels,              \* where the two template-data keys are written: package level, package level over a DIFFERENT
                                  \* top-level default (the header reads the package-effective value: most specific wins), top level only
           SrcShapes,             \* one interface / two interfaces sharing the file / a method-less interface (no imports at all)
+          Sizes,                 \* byte size class of the "many lines" boilerplates (just above 4 KiB, 64 KiB, 1 MiB)
           FsStates               \* directory entries next to the config file named like bare tags / templates / the boilerplate file
 
 VARIABLES expr, shape, nl, fmt,  \* the case
@@ -38,7 +39,7 @@ VARIABLES expr, shape, nl, fmt,  \* the case
 vars == <<expr, shape, nl, fmt, pc, lines>>
 
 ASSUME PrintT(<<"OBSDIMS", ToJson([templ |-> Templates, place |-> Placements, pathkind |-> PathKinds, spelling |-> Spellings,
-                                   tdlevel |-> TdLevels, fs |-> FsStates, srcshape |-> SrcShapes])>>)
+                                   tdlevel |-> TdLevels, fs |-> FsStates, srcshape |-> SrcShapes, size |-> Sizes])>>)
 
 AllExprs == ExprsUpTo(Tags, MaxDepth)
 
@@ -103,8 +104,8 @@ ASSUME TablesVary
 Emit ==
   IF pc = "done"
   THEN PrintT(<<"CASE", ToJson([expr |-> expr, shape |-> shape, nl |-> nl, fmt |-> fmt,
-                               boiler |-> BoilerLines(shape),
+                               boiler |-> CapRuns(BoilerLines(shape)),
                                expect |-> [gen |-> TRUE, verbatim |-> TRUE, incl |-> Table(expr)],
-                               predicted |-> lines])>>)
+                               predicted |-> CapRuns(lines)])>>)
   ELSE TRUE
 =============================================================================
